@@ -110,6 +110,59 @@ fn vamm_twap_ns(blocks: Vec<Block>, intervals: Vec<u64>, tail: u64, nanos: Vec<u
     }
 }
 
+/// two trades in two blocks, the vAMM is closed, time passes, it is re-opened (in a later block or
+/// in the closing block), then TWAP queries whose windows start before / at / after the re-opening
+fn vamm_twap_reopen(closed_for: u64, seed: u64) -> impl Fn() {
+    move || {
+        let mut cfg = Cfg::base(false, 9);
+        cfg.vamm_engine_is_owner = true;
+        let d = cfg.d();
+        let mut w = deploy_or_drop(cfg);
+        symrt::set_full(true);
+        let g = 15 + (seed % 30);
+        let mut segs: Vec<(u64, Uint128)> = vec![(w.now(), w.spot_price(0).unwrap())];
+        for (i, units) in [20u128, 35].iter().enumerate() {
+            w.next_block(g);
+            let amt = var(&format!("a{}", i + 1), 0, 400 * d, units * d);
+            let t = w.vamm_exec(OWNER, 0, &swap_msg(Kind::Input, Direction::AddToAmm, amt, Uint128::zero(), true));
+            if t.ok {
+                segs.push((w.now(), w.spot_price(0).unwrap()));
+            }
+        }
+        w.next_block(g);
+        assert!(w.vamm_exec(OWNER, 0, &margined_perp::margined_vamm::ExecuteMsg::SetOpen { open: false }).ok);
+        if closed_for > 0 {
+            w.next_block(closed_for);
+        }
+        assert!(w.vamm_exec(OWNER, 0, &margined_perp::margined_vamm::ExecuteMsg::SetOpen { open: true }).ok);
+        w.next_block(100);
+        let now = w.now();
+        for iv in [50u64, 100, 101, closed_for.max(1), closed_for + 100, closed_for + 100 + g, closed_for + 150 + 2 * g, 100_000] {
+            let tw = match w.twap_price(0, iv) {
+                Ok(t) => t,
+                Err(e) => {
+                    prove_d("C18/twap-query-answers", Cond::False, format!("interval={} {}", iv, crate::sx::norm(&e)));
+                    continue;
+                }
+            };
+            let from = now.saturating_sub(iv);
+            let mut inwin: Vec<Uint128> = vec![];
+            for (i, (start, p)) in segs.iter().enumerate() {
+                let end = segs.get(i + 1).map(|x| x.0).unwrap_or(u64::MAX);
+                if end > from && *start <= now {
+                    inwin.push(*p);
+                }
+            }
+            let (lo, hi) = minmax(&inwin);
+            let what = format!("closed-for={} interval={} segments-in-window={}", closed_for, iv, inwin.len());
+            prove_d("C18/vamm-twap-within-end-of-block-prices-in-window", lo.le(s(tw)).and(s(tw).le(hi)), what.clone());
+            if inwin.len() == 1 {
+                prove_d("C18/vamm-twap-equals-spot-when-unchanged", s(tw).eq(s(inwin[0])), what);
+            }
+        }
+    }
+}
+
 #[derive(Deserialize, Clone, Debug)]
 struct PriceData {
     round_id: Uint128,
@@ -209,6 +262,9 @@ pub fn scenarios(seed: u64) -> Vec<Scenario> {
             let ns: Vec<u64> = (0..=blocks.len()).map(|i| [900_000_000u64, 300_000_000, 700_000_000, 600_000_000][i % 4]).collect();
             v.push(sc("C18", Tier::Quick, &format!("c18.vamm.{}.unaligned", name), "as above with sub-second block-time offsets", 400, 120, vamm_twap_ns(blocks, ivs, tail.max(2), ns)));
         }
+    }
+    for (cf, cn) in [(700u64, "700s"), (0, "same-block")] {
+        v.push(sc("C18", Tier::Quick, &format!("c18.vamm.closed-and-reopened.{}", cn), "two trades, the vAMM is closed and re-opened (700 s later / in the same block), TWAP windows starting before, at and after the re-opening", 400, 120, vamm_twap_reopen(cf, seed)));
     }
     let df = "the repository's price feed: symbolic prices submitted at enumerated non-decreasing timestamps <= now; TWAP within the submitted prices overlapping the window; latest / n-rounds-back return exactly the submitted (price, timestamp, round)";
     let feeds: Vec<(&str, Vec<u64>, Vec<u64>, u64)> = vec![
